@@ -203,6 +203,7 @@ def translate(source: str) -> str:
 
 
 def generate(ck=None):
+    selftest()        # the translator checks itself on the committed miniature input first
     src = (REPO / "pint" / "pint_eval.py").read_text()
     return {"Gen/EvalTables.v": translate(src)}
 
